@@ -310,23 +310,50 @@ theorem denl_noNl {a : Str} (h : NoNl a) : denl a = a := by
     simp only [denl, List.map_cons, if_neg hc] at ih ⊢
     rw [ih (fun d hd => h d (List.mem_cons_of_mem _ hd))]
 
+theorem isSpace_of_visible {c : Char} (h : visible c = true) : isSpace c = false := by
+  cases hs : isSpace c with
+  | false => rfl
+  | true =>
+    exfalso
+    revert h
+    simp only [isSpace, Bool.or_eq_true, beq_iff_eq] at hs
+    rcases hs with ((((((rfl | rfl) | rfl) | rfl) | rfl) | rfl) | rfl) | rfl <;> decide
+
+theorem isWord_itoa (n : Nat) : isWord (Location.itoa n) = true := by
+  simp only [isWord, Bool.and_eq_true, bne_iff_ne, ne_eq, List.all_eq_true]
+  refine ⟨Location.itoa_ne_nil n, fun c hc => ?_⟩
+  have := Lemmas.Location.itoa_digits n c hc
+  simp only [Insdc.isDig, Bool.and_eq_true, decide_eq_true_eq] at this
+  simp only [visible, Bool.and_eq_true, decide_eq_true_eq]
+  omega
+
+theorem isWord_refNum (i : Nat) (r : Reference) (h : (r.index == [] || isWord r.index) = true) :
+    isWord (refNum i r) = true := by
+  unfold refNum
+  split
+  · exact isWord_itoa _
+  · rename_i hne
+    simpa [hne] using h
+
 /-- the REFERENCE line is read back as its number and its range, whatever their lengths -/
-theorem mkBlock_reference (n : Nat) (range : Str) (hr : singleSpaced range = true) (subs : List (Str × Str)) :
-    mkBlock "REFERENCE".toList (readText (Location.itoa n ++ "  ".toList ++ range)) subs =
-      { key := "REFERENCE".toList, num := Location.itoa n, text := range, subs := subs } := by
-  have hdig := Lemmas.Location.itoa_digits n
-  have hnb : ∀ c ∈ Location.itoa n, c ≠ ' ' := fun c hc => ne_blank_of_isDig (hdig c hc)
-  have hnn : NoNl (Location.itoa n) := fun c hc => by
-    have := hdig c hc
-    intro e; subst e; revert this; decide
-  have hlast : ∀ c, (Location.itoa n).getLast? = some c → c ≠ ' ' := fun c hc =>
+theorem mkBlock_reference (num : Str) (hnum : isWord num = true) (range : Str) (hr : singleSpaced range = true)
+    (subs : List (Str × Str)) :
+    mkBlock "REFERENCE".toList (readText (num ++ "  ".toList ++ range)) subs =
+      { key := "REFERENCE".toList, num := num, text := range, subs := subs } := by
+  have hvis : ∀ c ∈ num, visible c = true := by
+    simp only [isWord, Bool.and_eq_true, List.all_eq_true] at hnum
+    exact hnum.2
+  have hdig : ∀ c ∈ num, isSpace c = false := fun c hc => isSpace_of_visible (hvis c hc)
+  have hnb : ∀ c ∈ num, c ≠ ' ' := fun c hc => visible_ne_blank (hvis c hc)
+  have hnn : NoNl num := fun c hc => visible_ne_nl (hvis c hc)
+  have hlast : ∀ c, (num).getLast? = some c → c ≠ ' ' := fun c hc =>
     hnb c (List.mem_of_getLast? hc)
-  have key : ∃ r, readText (Location.itoa n ++ "  ".toList ++ range) = r
-      ∧ r.takeWhile (· != ' ') = Location.itoa n ∧ trimLeft (r.dropWhile (· != ' ')) = range := by
+  have key : ∃ r, readText (num ++ "  ".toList ++ range) = r
+      ∧ r.takeWhile (· != ' ') = num ∧ trimLeft (r.dropWhile (· != ' ')) = range := by
     refine ⟨_, rfl, ?_⟩
     unfold readText textOf
     rw [joinSp_lines, wrapString, List.append_assoc,
-      wrapGo_word 68 _ [] _ (fun c hc => isSpace_of_isDig (hdig c hc))]
+      wrapGo_word 68 _ [] _ (fun c hc => hdig c hc)]
     have two : "  ".toList = [' ', ' '] := rfl
     rw [two]
     simp only [List.append_nil, List.cons_append, List.nil_append]
@@ -340,7 +367,7 @@ theorem mkBlock_reference (n : Nat) (range : Str) (hr : singleSpaced range = tru
       split
       · simp only [List.reverse_cons, List.reverse_nil, List.nil_append, List.cons_append]
         rw [denl_append, denl_noNl hnn]
-        have : trimRight (Location.itoa n ++ denl [' ', ' ']) = Location.itoa n :=
+        have : trimRight (num ++ denl [' ', ' ']) = num :=
           trimRight_append_blanks _ 2 hlast
         rw [this]
         have := takeWhile_nonblank_self hnb
@@ -362,10 +389,10 @@ theorem mkBlock_reference (n : Nat) (range : Str) (hr : singleSpaced range = tru
       have hrange_last := spacedFrom_getLast _ false hs
       -- in both cases the result is number, one or two blanks, range
       have fin : ∀ (b : Str), (b = [' '] ∨ b = [' ', ' ']) →
-          (trimRight (Location.itoa n ++ (b ++ c :: r))).takeWhile (· != ' ') = Location.itoa n
-          ∧ trimLeft ((trimRight (Location.itoa n ++ (b ++ c :: r))).dropWhile (· != ' ')) = c :: r := by
+          (trimRight (num ++ (b ++ c :: r))).takeWhile (· != ' ') = num
+          ∧ trimLeft ((trimRight (num ++ (b ++ c :: r))).dropWhile (· != ' ')) = c :: r := by
         intro b hb
-        have htr : trimRight (Location.itoa n ++ (b ++ c :: r)) = Location.itoa n ++ (b ++ c :: r) := by
+        have htr : trimRight (num ++ (b ++ c :: r)) = num ++ (b ++ c :: r) := by
           apply trimRight_of_getLast
           intro d hd
           rcases hb with rfl | rfl
@@ -395,7 +422,7 @@ theorem mkBlock_reference (n : Nat) (range : Str) (hr : singleSpaced range = tru
           exact hd
         rw [this]
         exact fin [' '] (Or.inl rfl)
-      · obtain ⟨sep, o, e, hsep, hwr⟩ := wrapGo_pending 68 r (0 + (Location.itoa n).length) [c] [' ', ' ']
+      · obtain ⟨sep, o, e, hsep, hwr⟩ := wrapGo_pending 68 r (0 + (num).length) [c] [' ', ' ']
           hrest (by simp) (by simp) (by simp)
         rw [e, denl_append, denl_noNl hnn, denl_append]
         have hd := hwr.denl_eq false (by simpa using hs)
@@ -434,7 +461,7 @@ def refSubs (r : Reference) : List (Str × Str) :=
 def refSpecs : Nat → List Reference → List BlockSpec
   | _, [] => []
   | i, r :: rs =>
-    ⟨"REFERENCE".toList, Location.itoa (i + 1) ++ "  ".toList ++ r.range, refSubs r⟩ :: refSpecs (i + 1) rs
+    ⟨"REFERENCE".toList, refNum i r ++ "  ".toList ++ r.range, refSubs r⟩ :: refSpecs (i + 1) rs
 
 def otherSpecs (m : List (Str × Str)) (keys : List Str) : List BlockSpec :=
   keys.map fun k => ⟨k, lookupD m k, []⟩
@@ -553,9 +580,9 @@ theorem specBlock_refs : ∀ (refs : List Reference) (i : Nat), refs.all wfRef =
     simp only [List.all_cons, Bool.and_eq_true] at h
     have hr := h.1
     simp only [wfRef, Bool.and_eq_true] at hr
-    obtain ⟨⟨⟨⟨⟨h1, h2⟩, h3⟩, h4⟩, h5⟩, h6⟩ := hr
+    obtain ⟨⟨⟨⟨⟨⟨h1, h2⟩, h3⟩, h4⟩, h5⟩, h6⟩, h7⟩ := hr
     simp only [refSpecs, absRefs, List.map_cons, specBlock, specBlock_refs rs (i + 1) h.2]
-    rw [mkBlock_reference (i + 1) r.range h1]
+    rw [mkBlock_reference (refNum i r) (isWord_refNum i r h7) r.range h1]
     simp only [refSubs, List.map_append, map_optSub _ h2, map_optSub _ h3, map_optSub _ h4, map_optSub _ h5,
       map_optSub _ h6]
 
